@@ -822,6 +822,26 @@ def explore(ctx, m, tags, e, ename, info, pending, deep=True):
                 continue
             same(case, v, w, "facet query", dict(sel_descr, form="index array"), dict(sel_descr, form=fname))
             corr_normalize("facets", sel, seljson)
+            if allnames and rng.random() < 0.7:
+                # the same selector on the SAME basis object with a name restriction, then without again,
+                # then with another one: each against the index-array form with the same restriction
+                for sk in (rng.sample(allnames, 1), [], rng.sample(allnames, rng.randint(1, min(2, len(allnames))))):
+                    kw = {"skip": sk} if sk else {}
+                    a = query("facets=index array" + (", skip" if sk else ""), sel_descr, facets=arr, **kw)
+                    b = query("facets=" + fname + (", skip" if sk else ""), dict(sel_descr, form=fname),
+                              facets=sel, **kw)
+                    ctx.count("facet-selector-form-with-skip:" + fname)
+                    if a is not None and b is not None:
+                        same(case, a, b, "facet query" + (f" with skip={sk}" if sk else " after a query with skip"),
+                             dict(sel_descr, form="index array", skip=sk), dict(sel_descr, form=fname, skip=sk))
+                        if T.lname is not None and T.name_clash is None:
+                            wantsk = {d for d in want if T.dname[d] not in sk}
+                            if set(aslist(b.flatten())) != wantsk:
+                                case.viol("facet query restricted by DOF name does not return exactly the DOFs of "
+                                          "the set without the skipped names",
+                                          {"what": "name-filter", "op": "skip-sequence"},
+                                          selector=dict(sel_descr, form=fname), skip=sk,
+                                          got=aslist(b.flatten())[:40], want=sorted(wantsk)[:40])
         corr_normalize("facets", arr, {"idx": aslist(arr)})
         # dict form (deprecated): callable and raw arrays
         if S and rng.random() < 0.5:
@@ -966,6 +986,16 @@ def explore(ctx, m, tags, e, ename, info, pending, deep=True):
                 continue
             same(case, v, w, "cell query", dict(sel_descr, form="index array"), dict(sel_descr, form=fname))
             corr_normalize("elements", sel, seljson)
+            if allnames and rng.random() < 0.5:
+                for sk in (rng.sample(allnames, 1), [], rng.sample(allnames, rng.randint(1, min(2, len(allnames))))):
+                    kw = {"skip": sk} if sk else {}
+                    a = query("elements=index array" + (", skip" if sk else ""), sel_descr, elements=arr, **kw)
+                    b = query("elements=" + fname + (", skip" if sk else ""), dict(sel_descr, form=fname),
+                              elements=sel, **kw)
+                    ctx.count("cell-selector-form-with-skip:" + fname)
+                    if a is not None and b is not None:
+                        same(case, a, b, "cell query" + (f" with skip={sk}" if sk else " after a query with skip"),
+                             dict(sel_descr, form="index array", skip=sk), dict(sel_descr, form=fname, skip=sk))
         if label == "subset" and rng.random() < 0.6:
             fn, tt, txt = halfspace(rng, T.cmid)
             Sg = [k for k in range(nt) if tt[k]]
